@@ -393,9 +393,36 @@ def r14_5(ctx):
     return r
 
 
+def hir_mir_option_reads(ctx):
+    """thorough: the MIR-derived option read sites are re-derived from the typed HIR; both views must agree"""
+    r = Rule("R14.X", "cross-check: (function, option) read sites derived from MIR equal those derived from the typed HIR", "a disagreement means one view misses reads (e.g. precise closure captures)")
+    idx = access_index(ctx)
+    mir = set()
+    for a in idx.get("options", []):
+        parts = a["path"].strip(".").split(".")
+        if len(parts) >= 2 and not root_path(a["body"]).endswith("::new"):
+            mir.add((root_path(a["body"]), re.sub(r"as \w+", "", parts[1])))
+    hir = set()
+    for b in ctx.facts.hir:
+        if b["crate"] != VISITOR_CRATE or b.get("mac"):
+            continue
+        for n in walk(b["body"]):
+            if n.get("k") == "Field":
+                fp = field_path(strip_transparent(n)) or ""
+                m = re.match(r"self\.options\.(\w+)$", fp)
+                if m:
+                    hir.add((b["path"], m.group(1)))
+    for x in sorted(hir | mir):
+        r.ob("%s reads options.%s" % x, x in hir and x in mir, "-", "seen in both views" if (x in hir and x in mir) else ("only in the %s view" % ("HIR" if x in hir else "MIR")))
+    return r
+
+
 def rules(ctx):
     from . import c12, c10
-    return [r14_1, r14_2, r14_3, r14_4, r14_5, c12.r12_1]
+    out = [r14_1, r14_2, r14_3, r14_4, r14_5, c12.r12_1]
+    if ctx.tier == "thorough":
+        out.append(hir_mir_option_reads)
+    return out
 
 
 EXPLANATION = (
